@@ -272,7 +272,11 @@ func (t *Terms) exprTerm(fr *Frame, e ast.Expr, delays map[*Stream]*lin.Expr) (s
 		}
 	case *ast.CallExpr:
 		if tv, ok := fr.Info.Types[x.Fun]; ok && tv.IsType() && len(x.Args) == 1 {
-			return t.exprTerm(fr, x.Args[0], delays)
+			inner, err := t.exprTerm(fr, x.Args[0], delays)
+			if err == nil && dtab.Truncates(tv.Type, fr.Info.TypeOf(x.Args[0])) {
+				return sym.F("trunc", inner), nil
+			}
+			return inner, err
 		}
 		var args []sym.Expr
 		for _, a := range x.Args {
